@@ -110,7 +110,25 @@ func innermostLoop(fn *ssa.Function, b *ssa.BasicBlock) *ssa.BasicBlock {
 	var best *ssa.BasicBlock
 	bestN := -1
 	for h, body := range core.Loops(fn) {
-		if body[b] && b != h && (bestN < 0 || len(body) < bestN) {
+		// the header of a test-first loop belongs to the surrounding code; a
+		// rotated loop (go/ssa's `for i := range n`: test at the bottom) starts
+		// with body code in its header
+		rotated := false
+		if b == h {
+			rotated = true
+			if _, isIf := h.Instrs[len(h.Instrs)-1].(*ssa.If); isIf {
+				for _, s := range h.Succs {
+					if !body[s] {
+						rotated = false
+					}
+					if s == h {
+						rotated = true
+						break
+					}
+				}
+			}
+		}
+		if body[b] && (b != h || rotated) && (bestN < 0 || len(body) < bestN) {
 			best, bestN = h, len(body)
 		}
 	}
